@@ -3,17 +3,18 @@
  "id": "SCAN.number",
  "file": "scan.c", "function": "number",
  "properties": {"C13": "contract", "C19": "safety"},
- "mode": "dfcc", "enforce": "number/number_contract", "post_macro": "POST_NUM",
+ "mode": "harness", "post_macro": "POST_NUM",
  "replace_calls": {"nextchar": "nextchar_abs"},
  "kind": "bounded",
  "bound": "files of at most 12 logical characters (all byte values) from the first digit on, each preceded by 0 or 1 backslash-newline pair; loop of number() unwound 14 times",
- "unwindset": ["number_wrapped_for_contract_checking.0:14"],
+ "unwindset": ["number.0:14"],
  "cflags": ["-DG_IN_MAX=40"],
  "stubs": ["base.c", "ghost_stdio.c"],
  "cbmc_flags": ["--drop-unused-functions"],
  "timeout": 300,
- "expects": ["postcondition", "assigns"],
+ "expects": ["assertion_verif"],
  "assumes": ["nextchar is taken by its stand-in nextchar_abs (scan_common.h; SCAN.nextchar + SCAN.nextchar.abs prove the real one refines it)",
+             "harness mode (PRE assumed, POST asserted around the real call; under DFCC the 13-iteration loop with write-set checks produced 21 M clauses and did not finish in 300 s); frame stated by POST clauses",
              "identifier-nondigit = ASCII letters and underscore (no universal character names, no bytes >= 0x80)",
              "inputs with two ADJACENT sign characters in the window are excluded here and stated in SCAN.number.signsign (finding: number() keeps accepting signs after the first exponent sign)"]
 }
@@ -32,6 +33,7 @@ harness(void)
 	IN(u64, in_splices);
 	IN(bool, in_dot);
 	IN(bool, in_havebuf);
+	IN(bool, in_saw);
 	ING(size_t, g_j);
 
 	__CPROVER_assume(in_m <= GS_LMAX && g_j < GS_LMAX);
@@ -40,7 +42,7 @@ harness(void)
 	g_line0 = 1; g_col0 = 0;
 	gs_build(in_m);
 	__CPROVER_assume(gs_canonical());
-	s = gs_scanner_at0(false, in_havebuf || in_dot, false, 1, 1);
+	s = gs_scanner_at0(in_saw, in_havebuf || in_dot, false, 1, 1);
 	g_len0 = 0;
 	if (in_dot) {
 		/* scankind's ".digit" path: the '.' is already in the spelling buffer */
@@ -48,5 +50,6 @@ harness(void)
 		s->buf.len = 1;
 		g_len0 = 1;
 	}
-	CALLR(enum tokenkind, PRE_NUM, POST_NUM, number(s));
+	g_sawn = s->sawspace; g_file0 = s->loc.file;
+	HCALLR(enum tokenkind, PRE_NUM, POST_NUM, number(s));
 }
